@@ -14,7 +14,7 @@ Definition exn_name (e : exn) : string :=
   match e with
   | TypeErr => "TypeError" | IndexErr => "IndexError" | KeyErr => "KeyError" | ValueErr => "ValueError"
   | FieldSelectionErr => "FieldSelectionError" | DuplicateKeyErr => "DuplicateKeyError"
-  | ArgumentErr => "ArgumentError" | StopIterLeak => "RuntimeError" | StopIter => "StopIteration" | ZeroDivErr => "ZeroDivisionError"
+  | ArgumentErr => "ArgumentError" | StopIterLeak => "RuntimeError" | StopIter => "StopIteration" | AttributeErr => "AttributeError" | ZeroDivErr => "ZeroDivisionError"
   | AssertionErr => "AssertionError" | UserErr _ => "UserError" | OtherErr => "Exception"
   end%string.
 
